@@ -260,6 +260,12 @@ def main():
         geom = rp.get('geom', 'default')
         ok, out = build_harness(geom)
         if not ok: print(out); sys.exit(2)
+        if PROPS[prop].get('replay_bin'):
+            # the replay runs the `replay` binary of the *current* tree, not whatever was built last
+            with Lock('cargo-replay'):
+                rc, out = sh(['cargo', 'build', '-p', 'llfree-eval', '--bin', 'replay', '--offline', '--quiet'], cwd=REPO,
+                             env={'CARGO_TARGET_DIR': os.path.join(HARN, 'target-replay')}, timeout=3000)
+            if rc != 0: print(out[-2000:]); sys.exit(2)
         if rp.get('kind') == 'schedule':
             rf = os.path.join(WORK, 'replay_sched.txt')
             os.makedirs(WORK, exist_ok=True)
